@@ -23,6 +23,7 @@ func vCipherPair() (s, r *cipherState) {
 func VH_C08_LockStep() {
 	s, r := vCipherPair()
 	n0 := s.nonce
+	key0, salt0 := s.secretKey, s.salt
 	l := vIntRange("len", 0, vParam("maxlen", 3))
 	p := vBytes("p", l)
 	ct := s.Encrypt(nil, nil, p)
@@ -40,6 +41,27 @@ func VH_C08_LockStep() {
 		vAssert(s.nonce == 0, "nonce not reset at the rotation boundary")
 	} else {
 		vAssert(s.nonce == n0+1, "nonce not advanced by one")
+	}
+	// the AEAD instance in use is the one of the current key: a fresh state
+	// initialised from the key/salt/nonce fields encrypts identically
+	fresh := &cipherState{}
+	fresh.InitializeKeyWithSalt(s.salt, s.secretKey)
+	fresh.nonce = s.nonce
+	probe := vBytes("probe", 1)
+	sc := *s // Encrypt advances the nonce: probe on copies
+	fc := *fresh
+	vAssert(vIdealEq(sc.Encrypt(nil, nil, probe), fc.Encrypt(nil, nil, probe)), "the cipher in use is not the one of the current key (key fields and AEAD instance out of sync)")
+	rcopy := *r
+	fr := &cipherState{}
+	fr.InitializeKeyWithSalt(r.salt, r.secretKey)
+	fr.nonce = r.nonce
+	vAssert(vIdealEq(rcopy.Encrypt(nil, nil, probe), fr.Encrypt(nil, nil, probe)), "the receiver's cipher is not the one of its current key")
+	if n0 == keyRotationInterval-1 {
+		// a new epoch starts at nonce 0 under a new key: nothing of the old epoch repeats
+		old := &cipherState{}
+		old.InitializeKeyWithSalt(salt0, key0)
+		sc2 := *s
+		vAssert(!vIdealEq(sc2.Encrypt(nil, nil, probe), old.Encrypt(nil, nil, probe)), "after the rotation the old key is still in use (key/nonce pairs of the previous epoch repeat)")
 	}
 	// the (key, nonce) pair just used is never used again: an equal plaintext
 	// encrypted next gives a different ciphertext
